@@ -50,6 +50,7 @@ func (_this *MarkedObjectKeyableRule) OnArrayBegin(ctx *Context, arrayType event
 	ctx.BeginArrayKeyable("marked object (keyable)", arrayType)
 }
 func (_this *MarkedObjectKeyableRule) OnChildContainerEnded(ctx *Context, dataType DataType) {
+	ctx.MarkContainer(dataType)
 	ctx.UnstackRule()
 	ctx.CurrentEntry.Rule.OnChildContainerEnded(ctx, dataType)
 }
@@ -115,7 +116,7 @@ func (_this *MarkedObjectAnyTypeRule) OnArrayBegin(ctx *Context, arrayType event
 	ctx.ParentRule().OnArrayBegin(ctx, arrayType)
 }
 func (_this *MarkedObjectAnyTypeRule) OnChildContainerEnded(ctx *Context, cType DataType) {
-	ctx.MarkObject(cType)
+	ctx.MarkContainer(cType)
 	ctx.UnstackRule()
 	ctx.CurrentEntry.Rule.OnChildContainerEnded(ctx, cType)
 }
